@@ -10,8 +10,8 @@
          order + output label), the Slice node function
      Node.__init__(autorun=True) / Node.run / Node.pull as far as injected nodes see them.
 
-   External behaviour is a Section variable: CPython's operators [pyop], [str()] of a raw
-   operand [py_str], [is None], and [hash] of the nominal label.  Stdlib only. *)
+   External behaviour is a Section variable: CPython's operators [pyop], [repr()] / [str()] of a raw
+   operand, and [hash] of the nominal label.  Stdlib only. *)
 From PW Require Import Base.
 
 (* ---- the operator node classes of nodes/standard.py used by injection ------------- *)
@@ -243,8 +243,8 @@ Definition same_set (a b : list owner) : bool :=
 Section Model.
   Variable val : Type.
   Variable pyop : pyfun -> list val -> val + string.   (* CPython: value or exception class *)
-  Variable py_str : val -> string.                     (* str(v) *)
-  Variable is_none : val -> bool.                      (* v is None *)
+  Variable py_str : val -> string.                     (* str(v): only to read an attribute name *)
+  Variable py_repr : val -> string.                    (* repr(v) *)
   Variable none_val : val.                             (* None *)
   Variable hash : string -> string.                    (* str(hash(s)).replace("-", "m") *)
 
@@ -314,7 +314,7 @@ Section Model.
   Definition other_label (st : state) (o : operand) : string :=
     match o with
     | OC c => scoped st c          (* other.channel.scoped_label *)
-    | OR v => py_str v             (* str(other) *)
+    | OR v => py_repr v            (* repr(other) *)
     end.
 
   Record request := mkQ {
@@ -377,16 +377,10 @@ Section Model.
   Definition input_values (st : state) (c : cls) (ins : list operand) : option (list val) :=
     input_values_from st c 0 ins.
 
-  (* nodes/standard.py Slice *)
+  (* nodes/standard.py Slice: return slice(start, stop, step) *)
   Definition slice_fun (vals : list val) : val + string :=
     match vals with
-    | [start; stop; step] =>
-        if is_none start then
-          if is_none stop then inr "ValueError"
-          else if negb (is_none step) then inr "ValueError"
-          else pyop PSliceCtor [stop]
-        else if is_none stop then inr "ValueError"
-        else pyop PSliceCtor [start; stop; step]
+    | [start; stop; step] => pyop PSliceCtor [start; stop; step]
     | _ => inr "TypeError"
     end.
 
@@ -427,6 +421,13 @@ Section Model.
   (* ---- _node_injection ------------------------------------------------------------------ *)
   Inductive outcome := Done | Raised (x : string).
 
+  (* arg.channel.value is not NOT_DATA for every HasChannel argument *)
+  Definition holds_data (st : state) (ins : list operand) : bool :=
+    forallb (fun o => match o with
+                      | OC c => match chan_value st c with Some _ => true | None => false end
+                      | OR _ => true
+                      end) ins.
+
   Definition inject (st : state) (q : request) : state * nat * outcome :=
     let l := inj_label st q in
     match (if s_parent st then find_label l (s_nodes st) 0 else None) with
@@ -437,8 +438,9 @@ Section Model.
         let st1 := mkS (s_parent st) (s_users st)
                        (s_nodes st ++ [mkN l (q_cls q) ins None false])
                        None in     (* Composite.add_child resets the parent's cache *)
-        (* autorun=True: run(), a ReadinessError is suppressed, anything else escapes *)
-        match run_own st1 n with
+        (* autorun only if every channel-like argument already holds data; then run(): a
+           ReadinessError is suppressed, anything else escapes *)
+        match (if holds_data st1 ins then run_own st1 n else (st1, RNotReady)) with
         | (st2, RRaise x) => (st2, n, Raised x)
         | (st2, _) => (st2, n, Done)
         end
@@ -819,8 +821,6 @@ Fixpoint tbl_pyop (t : list pyrow) (f : pyfun) (args : list tval) : tval + strin
 Definition tbl_str (t : list (string * string)) (v : tval) : string :=
   match assoc String.eqb v t with Some s => s | None => "MISSING-STR" end.
 
-Definition t_is_none (v : tval) : bool := String.eqb v "NoneType:None".
-
 (* nominal labels are compared by a digest (keeps the generated case files small) *)
 Fixpoint digest (s : string) (h : Z) : Z :=
   match s with
@@ -828,12 +828,12 @@ Fixpoint digest (s : string) (h : Z) : Z :=
   | String a r => digest r ((h * 131 + Z.of_nat (Ascii.nat_of_ascii a)) mod 2305843009213693951)%Z
   end.
 
-Definition t_run (t : list pyrow) (strs : list (string * string)) (parent : bool)
+Definition t_run (t : list pyrow) (strs reprs : list (string * string)) (parent : bool)
            (users : list (urec tval)) (ss : list (step tval)) : obs :=
-  run_case tval (tbl_pyop t) (tbl_str strs) t_is_none "NoneType:None" (fun s => s) OS
+  run_case tval (tbl_pyop t) (tbl_str strs) (tbl_str reprs) "NoneType:None" (fun s => s) OS
            (fun s => OZ (digest s 7)) parent users ss.
 
 (* the same with the nominal labels in clear (debugging, witnesses) *)
-Definition t_run_clear (t : list pyrow) (strs : list (string * string)) (parent : bool)
+Definition t_run_clear (t : list pyrow) (strs reprs : list (string * string)) (parent : bool)
            (users : list (urec tval)) (ss : list (step tval)) : obs :=
-  run_case tval (tbl_pyop t) (tbl_str strs) t_is_none "NoneType:None" (fun s => s) OS OS parent users ss.
+  run_case tval (tbl_pyop t) (tbl_str strs) (tbl_str reprs) "NoneType:None" (fun s => s) OS OS parent users ss.
